@@ -16,6 +16,7 @@ import (
 	"os"
 	"path/filepath"
 	"strings"
+	"sync"
 	"time"
 
 	"github.com/golang/snappy"
@@ -408,37 +409,51 @@ func Run(c *core.Ctx) {
 		blocks = []int{1, 2, 7, 4096, 9000, 70000}
 	}
 	combo := 0
+	// the combinations are independent: they run side by side
+	var wg sync.WaitGroup
+	sem := make(chan struct{}, 12)
 	for _, enc := range encodings {
 		for _, dir := range []h2.Direction{h2.ClientToServer, h2.ServerToClient} {
 			for _, block := range blocks {
 				combo++
-				tag := fmt.Sprintf("%s/%d/%d:", enc, dir, block)
-				p := params{enc: enc, dir: dir, block: block}
-				n := 0
-				opts := core.ReplayOpts{
-					SigPrefix: "edge:" + tag,
-					NewFor: func(init core.State) core.Machine {
-						n++
-						p.seed = c.Seed*1000003 + int64(combo)*7919 + int64(n%17)
-						return newMachine(init, p)
-					},
-					Abstract:   abstract,
-					NonTrivial: nontrivial,
-				}
-				budget := c.Pick(5000, 60000)
-				if enc != "identity" {
-					opts.MaxGroups = c.Pick(1200, 0)
-					budget = c.Pick(500, 10000)
-				}
-				if block > 4096 {
-					budget /= 4
-				}
-				core.ReplayGraph(c, g, opts)
-				opts.SigPrefix = "beh:" + tag
-				core.ReplayPaths(c, g, opts, 24, budget)
+				enc, dir, block, combo := enc, dir, block, combo
+				wg.Add(1)
+				sem <- struct{}{}
+				go func() {
+					defer wg.Done()
+					defer func() { <-sem }()
+					tag := fmt.Sprintf("%s/%d/%d:", enc, dir, block)
+					p := params{enc: enc, dir: dir, block: block}
+					n := 0
+					opts := core.ReplayOpts{
+						SigPrefix: "edge:" + tag,
+						NewFor: func(init core.State) core.Machine {
+							n++
+							p.seed = c.Seed*1000003 + int64(combo)*7919 + int64(n%17)
+							return newMachine(init, p)
+						},
+						Abstract:   abstract,
+						NonTrivial: nontrivial,
+					}
+					budget := c.Pick(5000, 40000)
+					if enc != "identity" {
+						opts.MaxGroups = c.Pick(1200, 6000)
+						budget = c.Pick(500, 6000)
+					}
+					if block > 4096 {
+						budget /= 4
+						if opts.MaxGroups > 0 {
+							opts.MaxGroups /= 2
+						}
+					}
+					core.ReplayGraph(c, g, opts)
+					opts.SigPrefix = "beh:" + tag
+					core.ReplayPaths(c, g, opts, 24, budget)
+				}()
 			}
 		}
 	}
+	wg.Wait()
 }
 
 func tail(r *core.TLCResult) string {
